@@ -27,6 +27,8 @@ func runC11(c *Check, tier string) {
 	// the validators must not reuse a verdict reached for one (dependant, dependency) pair for another
 	ruleSkipSetKeyComplete(c, "R11g", "analysis", "dag", "model")
 	ruleMemoKeyComplete(c, "R11h", "analysis", "dag", "model")
+	// the root package has one spelling in labels
+	ruleRootPackageCanonical(c, "R11i", 3)
 }
 
 func isNoReturnCall(in ssa.Instruction) bool {
